@@ -59,6 +59,37 @@ def rzz (I : α) (h : CS α) : Array α :=
   let p := h.c + I * h.s
   #[m,0,0,0, 0,p,0,0, 0,0,p,0, 0,0,0,m]
 
+/-! ### derivatives of the parametrised gates with respect to their angles
+
+`κ` is the chain factor of the pair: a pair `(c, s) = (cos κθ, sin κθ)` moves as `(c, s)' = (−κ s, κ c)`; `κ = ½` for the
+half-angle pairs.  These arrays are the ε-coefficients of the constructors above evaluated at the dual pairs
+`(c − ε κ s, s + ε κ c)` (`NumqiProps/C04Params.lean`: `rx_dual` …) and equal `−iκ·G·gate` with `G` the generator. -/
+
+def ZZ : Array α := #[1,0,0,0, 0,-1,0,0, 0,0,-1,0, 0,0,0,1]
+
+def drx (I κ : α) (h : CS α) : Array α := #[-(κ * h.s), -(I * (κ * h.c)), -(I * (κ * h.c)), -(κ * h.s)]
+def dry (κ : α) (h : CS α) : Array α := #[-(κ * h.s), -(κ * h.c), κ * h.c, -(κ * h.s)]
+def drz (I κ : α) (h : CS α) : Array α := #[-(κ * h.s) - I * (κ * h.c), 0, 0, -(κ * h.s) + I * (κ * h.c)]
+def drzz (I κ : α) (h : CS α) : Array α :=
+  let m := -(κ * h.s) - I * (κ * h.c)
+  let p := -(κ * h.s) + I * (κ * h.c)
+  #[m,0,0,0, 0,p,0,0, 0,0,p,0, 0,0,0,m]
+/-- `∂u3/∂θ` (`h` half-angle pair of θ, chain factor `κ`) -/
+def du3Theta (I κ : α) (h ph la : CS α) : Array α :=
+  let el := la.c + I * la.s
+  let ep := ph.c + I * ph.s
+  #[-(κ * h.s), -(κ * h.c * el), κ * h.c * ep, -(κ * h.s) * el * ep]
+/-- `∂u3/∂φ` (`ph` full-angle pair: `e^{iφ}' = i e^{iφ}`) -/
+def du3Phi (I : α) (h ph la : CS α) : Array α :=
+  let el := la.c + I * la.s
+  let ep := ph.c + I * ph.s
+  #[0, 0, h.s * (I * ep), h.c * el * (I * ep)]
+/-- `∂u3/∂λ` -/
+def du3Lambda (I : α) (h ph la : CS α) : Array α :=
+  let el := la.c + I * la.s
+  let ep := ph.c + I * ph.s
+  #[0, -(h.s * (I * el)), 0, h.c * (I * el) * ep]
+
 end Gates
 
 /-! ### the vocabulary of `numqi.sim.Circuit` -/
